@@ -1,3 +1,4 @@
+\* Measured: 13 configurations (<= 9 units): 585 019 distinct states, depth 2, ~3 min on 6 workers.
 \* the repaired design: every property holds
 CONSTANTS
   Configs <- AllConfigs
@@ -7,7 +8,8 @@ CONSTANTS
   FixNonce = TRUE
   FixUnpad = TRUE
   FixProto = TRUE
+  FixShardLens = TRUE
 INIT Init
 NEXT Next
-INVARIANTS Reconstructs CorruptHarmless NeverFails BadPaddingRejected HonestAccepted CorruptRejected DuplicateRejected Pipeline PaddingOK ThresholdsOK
+INVARIANTS Reconstructs CorruptHarmless NeverFails MalformedWireRejected BadPaddingRejected HonestAccepted CorruptRejected DuplicateRejected Pipeline PaddingOK ThresholdsOK
 CHECK_DEADLOCK FALSE
